@@ -318,9 +318,79 @@ def via_connection_case(ctx, case):
     ctx.nt('via', rel, other, name, case['how'])
 
 
+def views_case(ctx, case):
+    """The three documented views of Join Game's game mode (game_mode - the
+    byte as sent before 1.16.2 / the mode proper since; is_hardcore - bit 3
+    of that byte resp. its own field; pure_game_mode - the mode without the
+    bit) stay consistent under any sequence of assignments to a packet that
+    was decoded from the wire, and the packet then encodes to the published
+    bytes.  case {release, start: [mode, hardcore], ops [[view, value]..]}"""
+    rel = case['release']
+    p = refproto.packet(rel, 'join game')
+    if not p['present']:
+        return
+    ctx.ev()
+    m, cls = get_cls(p)
+    specs = specs_of(p)
+    names = [a for a, t in p['layout']]
+    split = 'is_hardcore' in names          # the flag has its own field
+    mode, hc = case['start'][0] & 3, bool(case['start'][1])
+    vals = boundary_values(p, rel, specs, 1)
+
+    def put(vals_, mode_, hc_):
+        vals_ = dict(vals_)
+        if split:
+            vals_['game_mode'], vals_['is_hardcore'] = mode_, hc_
+        else:
+            vals_['game_mode'] = mode_ | (8 if hc_ else 0)
+        return vals_
+    c = P4.ctx_for(rel)
+    from minecraft.networking.packets import PacketBuffer
+    q = cls()
+    q.context = c
+    buf = PacketBuffer()
+    buf.send(refproto.encode_fields(p['layout'], put(vals, mode, hc)))
+    buf.reset_cursor()
+    try:
+        q.read(buf)
+        for i, (view, value) in enumerate(case['ops']):
+            if view == 'game_mode':
+                value = value & (3 if split else 11)
+                q.game_mode = value
+                mode = value & 3
+                if not split:
+                    hc = bool(value & 8)
+            elif view == 'is_hardcore':
+                q.is_hardcore = bool(value)
+                hc = bool(value)
+            else:
+                q.pure_game_mode = value & 3
+                mode = value & 3
+            got = (q.game_mode, bool(q.is_hardcore), q.pure_game_mode)
+            want = (mode if split else mode | (8 if hc else 0), hc, mode)
+            if got != want:
+                ctx.fail('views', 'G3-join-game-views-inconsistent',
+                         dict(case, step=i), got, want)
+                return
+        s = Sink()
+        q.write(s)
+        body = P5.frame_split(s.value)[1]
+    except Exception as e:
+        ctx.fail('views', 'G3-join-game-views-raise', case, exc=e)
+        return
+    ref = refproto.encode_fields(p['layout'], put(vals, mode, hc))
+    if body != ref:
+        ctx.fail('views', 'G2-bytes-after-view-assignments', case,
+                 body.hex()[:80], ref.hex()[:80])
+        return
+    if len(case['ops']) >= 2:
+        ctx.nt('views', rel, repr(case['start']), repr(case['ops']))
+    ctx.label('views')
+
+
 membership_case = P4.reassigned(membership_case, 'release')
 packet_case = P4.reassigned(packet_case, 'release')
-COMPONENTS = {'via_connection': via_connection_case,
+COMPONENTS = {'views': views_case, 'via_connection': via_connection_case,
               'membership': membership_case, 'packet': packet_case,
               'releases': releases_case}
 
@@ -442,6 +512,32 @@ def t_via_connection(ctx, releases):
                'via_connection')
 
 
+def t_views(ctx, n, rels=None):
+    import itertools
+    ops1 = [['game_mode', 1], ['game_mode', 9], ['game_mode', 0],
+            ['is_hardcore', 1], ['is_hardcore', 0], ['pure_game_mode', 2],
+            ['pure_game_mode', 0]]
+    for rel in (rels or refproto.RELEASES):
+        for start in ([0, 0], [1, 1], [3, 0], [2, 1]):
+            for a, b in itertools.product(ops1, repeat=2):
+                views_case(ctx, {'release': rel, 'start': start,
+                                 'ops': [a, b]})
+    ctx.exhaustive_done('join game views: releases x 4 decoded states x all '
+                        'pairs of 7 assignments')
+    strat = st.fixed_dictionaries({
+        'release': st.sampled_from(list(refproto.RELEASES)),
+        'start': st.tuples(st.integers(0, 3), st.booleans()).map(list),
+        'ops': st.lists(st.tuples(
+            st.sampled_from(['game_mode', 'is_hardcore', 'pure_game_mode']),
+            st.integers(0, 11)).map(list), max_size=8)})
+
+    def body(c, case):
+        views_case(c, case)
+        if c.evaluations % 300 == 5:
+            c.sample(case, 'views')
+    hyp(ctx, 'views', strat, body, n)
+
+
 def tasks(tier):
     q = tier == 'quick'
     rels = list(refproto.RELEASES)
@@ -451,6 +547,10 @@ def tasks(tier):
                  [rels[i::6] for i in range(6)]):
         tl.append(('via_connection_%d' % part[0], t_via_connection,
                    dict(releases=part)))
+    vr = sorted(set(rels[::4] + [340, 736, 751])) if q else rels
+    for i in range(3):
+        tl.append(('views_%d' % i, t_views,
+                   dict(n=100 if q else 2000, rels=vr[i::3])))
     for i in range(6 if q else 14):
         tl.append(('random_%d' % i, t_random, dict(n=1500 if q else 25000)))
     return tl
